@@ -132,6 +132,22 @@ def _cmp_disc(out, sub, hdr, got, exp, sg, shift=0.0):
     return True
 
 
+def _typed(v, k):
+    """the same number in another numeric type (keywords arrive as numpy scalars, ints, float32 in real use)"""
+    if v is None:
+        return None
+    k = k % 5
+    if k == 1:
+        return np.float64(v)
+    if k == 2 and float(np.float32(v)) == float(v):
+        return np.float32(v)
+    if k == 3 and float(v) == int(v):
+        return np.int64(int(v))
+    if k == 4 and float(v) == int(v):
+        return int(v)
+    return float(v)
+
+
 @checker("sync")
 def chk_sync(rec, be):
     a, b, ts, te = rec["a"], rec["b"], rec["ts"], rec["te"]
@@ -151,10 +167,11 @@ def chk_sync(rec, be):
         else:
             _cmp_disc(out, sub, hdr, r, exp, sg, sh)
         mtu = None if (mt == 0 and k % 2 == 0) else mt
+        mtu = _typed(mtu, k + 1)
         st, r = call(pyspike.spike_sync_profile, train(a, ts, te, sg, sh), train(b, ts, te, sg, sh),
-                     max_tau=mtu, MRTS=float(m) * sg)
+                     max_tau=mtu, MRTS=_typed(float(m) * sg, k + 2))
         n += 1
-        sub = "spike_sync_profile[%s,s=%g,shift=%g,max_tau=%r]" % (be, sg, sh, mtu)
+        sub = "spike_sync_profile[%s,s=%g,shift=%g,max_tau=%r (%s)]" % (be, sg, sh, mtu, type(mtu).__name__)
         if st != "ok":
             out.append(_mm(sub, "%s %s raised %s" % (sub, hdr, r)))
         else:
